@@ -7,11 +7,13 @@ package main
 import (
 	"context"
 	"fmt"
+	"os"
 	"sort"
 
 	cmtabci "github.com/cometbft/cometbft/abci/types"
 
 	"github.com/oasisprotocol/oasis-core/go/common/crypto/hash"
+	beaconState "github.com/oasisprotocol/oasis-core/go/consensus/cometbft/apps/beacon/state"
 	roothashState "github.com/oasisprotocol/oasis-core/go/consensus/cometbft/apps/roothash/state"
 	roothash "github.com/oasisprotocol/oasis-core/go/roothash/api"
 	"github.com/oasisprotocol/oasis-core/go/roothash/api/block"
@@ -237,4 +239,80 @@ func (d *cnDriver) rhTx(v *rhView, node, sched, vote, validity string, nonceBump
 	}
 	nonceBump[signerName]++
 	return []cnTxMeta{{sp, raw}}
+}
+
+// ---- VRF beacon backend: proof submission ----
+
+type vrfView struct {
+	epoch       int64
+	epochHeight int64
+	submitAfter int64
+	alpha       []byte
+	have        map[string]bool // nodes whose proof for this alpha is recorded
+	ok          bool
+}
+
+func (n *cnNet) vrfViewOf(ctx context.Context, t mkvs.ImmutableKeyValueTree) vrfView {
+	bs := beaconState.NewImmutableState(t)
+	v := vrfView{have: map[string]bool{}}
+	ep, eh, err := bs.GetEpoch(ctx)
+	if err != nil {
+		return v
+	}
+	v.epoch, v.epochHeight = int64(ep), eh
+	vs, err := bs.VRFState(ctx)
+	if err != nil || vs == nil {
+		return v
+	}
+	v.ok, v.alpha, v.submitAfter = true, vs.Alpha, vs.SubmitAfter
+	for id := range vs.Pi {
+		v.have[n.keyName(id.String())] = true
+	}
+	return v
+}
+
+// genProofs lets registered nodes submit their VRF proof for the running epoch's alpha (some skip, some are early, some prove
+// the wrong thing or for the wrong epoch, and somebody who runs no node tries as well).
+func (d *cnDriver) genProofs(h int64, nonceBump map[string]uint64) []cnTxMeta {
+	n := d.net
+	if !d.vrf.ok {
+		return nil
+	}
+	n.vrfAlpha = d.vrf.alpha
+	var metas []cnTxMeta
+	add := func(signer, node, validity string, epoch int64) {
+		sp := &cnTxSpec{Kind: "vrfprove", Signer: signer, Node: node, Amount: epoch, Gas: 2000, Validity: validity,
+			Nonce: uint64(d.acctField(signer, "n")) + nonceBump[signer]}
+		if raw, err := n.buildTx(sp, d.rng); err == nil {
+			nonceBump[signer]++
+			metas = append(metas, cnTxMeta{sp, raw})
+		} else if os.Getenv("VERIF_DEBUG") != "" {
+			fmt.Fprintln(os.Stderr, "vrfprove build:", node, err)
+		}
+	}
+	for i, v := range n.vals {
+		if d.vrf.have[v.name] && d.rng.Intn(10) != 0 {
+			continue // (now and then a node proves twice: same proof, accepted without effect)
+		}
+		early := h <= d.vrf.submitAfter
+		switch x := d.rng.Intn(20); {
+		case early && x > 1:
+			continue
+		case x == 0 && i != 1:
+			continue // this node sits the epoch out
+		case x == 2:
+			add(v.name, v.name, "badpi", d.vrf.epoch)
+		case x == 3:
+			add(v.name, v.name, "wrongepoch", d.vrf.epoch+1)
+		case early:
+			add(v.name, v.name, "premature", d.vrf.epoch)
+		default:
+			add(v.name, v.name, "ok", d.vrf.epoch)
+		}
+	}
+	if d.rng.Intn(10) == 0 {
+		u := n.users[d.rng.Intn(len(n.users))]
+		add(u.name, n.vals[0].name, "notanode", d.vrf.epoch)
+	}
+	return metas
 }
